@@ -16,8 +16,8 @@ from harness import stmt_wire as SW
 
 META = {
     "id": "C06",
-    "technique": "Coq proof (escape = _escape_string_literal round-trips through a model of the g++ string-literal lexer for every string without a line end, refuted with a raw line end; the emitter's stitching order is sorted by section kind with one setup and one loop, declared-before-use of file-scope names holds under an explicit guard and is refuted for a function that mentions an ultrasonic helper or a later function; every assignment in the IR of the statement translator targets a variable visible under C++ block scoping, by induction over the translation incl. promotion and both rewriters, refuted for a setup-local introduced by a mixed tuple assignment; the header stitching includes the headers of every library class it instantiates, for every list of device declarations (Lang/Headers.v); the function-selection loop of parse() emits each (function, signature) once, only existing variants and every variant a recorded call resolves to, and no two definitions share name and C++ parameter list when the labels are those of _cpp_type's table (Lang/FnSelect.v)) + extracted-model correspondence with the real _escape_string_literal / _to_c_expr, with g++'s own lexer, with the section structure read back from the real emitted text, of the scoping verdict with g++, of the include list / library objects with the real text for the device declarations of the real IR, and of the selected function variants with Program.functions for the real specialisation tables + the compiler as property oracle: every accepted generated script inside the guard is compiled and linked with g++ against the mock core, every generated printable literal is printed by the firmware and compared with the Python value",
-    "level_text": "Theorems C06_* (coq/Props/C06.v) hold for all strings / all sketches / all programs of Gallina models (coq/Lang/Escape.v: escape and a lexer of one ordinary C++ string literal incl. line splicing; coq/Lang/Sections.v: the emitter's stitching order with defines/uses per top-level item; coq/Lang/Scope.v: C++ block scoping over the IR of coq/Lang/Transl.v, the model of the statement translator that unit C01_stmt ties to parser.py; coq/Lang/Headers.v: servo/LCD flags, library objects and includes as a fold over the top-level device declarations; coq/Lang/FnSelect.v: the selection loop over variants / recorded call signatures / aliases / primary signature and _cpp_type). The models are run against the real functions and against g++ on generated inputs; the C++ type checker is not modelled - g++ itself decides, on every accepted script of a structured generator (devices x helpers x lists x functions x control flow x printable literals) restricted to the guard of the listed findings.",
+    "technique": "Coq proof (escape = _escape_string_literal round-trips through a model of the g++ string-literal lexer for every string without a line end, refuted with a raw line end; the emitter's stitching order is sorted by section kind with one setup and one loop, declared-before-use of file-scope names holds under an explicit guard and is refuted for a function that mentions an ultrasonic helper or a later function; every assignment in the IR of the statement translator targets a variable visible under C++ block scoping, by induction over the translation incl. promotion and both rewriters, refuted for a setup-local introduced by a mixed tuple assignment; the header stitching includes the headers of every library class it instantiates, for every list of device declarations (Lang/Headers.v); the function-selection loop of parse() emits each (function, signature) once, only existing variants and every variant a recorded call resolves to, and no two definitions share name and C++ parameter list when the labels are those of _cpp_type's table (Lang/FnSelect.v); every device-call template of _emit_block keeps its helper locals in a block of its own, so any sequence of device calls in any block is free of redeclaration, and a whole function body is when the script's own declarations are (Lang/EmitScope.v: scope stack of C++ block scoping, LCD glyph arrays numbered by a counter that only grows); the global lines de-duplicated by text define no name twice when each name is always offered with one initialiser, refuted for a Servo bound twice with different limits (Lang/Globals.v)) + extracted-model correspondence with the real _escape_string_literal / _to_c_expr, with g++'s own lexer, with the section structure read back from the real emitted text, of the scoping verdict with g++, of the include list / library objects with the real text for the device declarations of the real IR, of the selected function variants with Program.functions for the real specialisation tables, and of the blocks and declarations of setup / loop / every user function that the emitter model produces for the real IR with those read back from the real text + the compiler as property oracle: the whole statement catalog (every device method with literal and run-time arguments, every statement that makes the transpiler invent a C++ name) twice in ONE block of every kind of block, reduced by ddmin to a minimal failing sequence; every accepted generated script inside the guard is compiled and linked with g++ against the mock core, every generated printable literal is printed by the firmware and compared with the Python value",
+    "level_text": "Theorems C06_* (coq/Props/C06.v) hold for all strings / all sketches / all programs of Gallina models (coq/Lang/Escape.v: escape and a lexer of one ordinary C++ string literal incl. line splicing; coq/Lang/Sections.v: the emitter's stitching order with defines/uses per top-level item; coq/Lang/Scope.v: C++ block scoping over the IR of coq/Lang/Transl.v, the model of the statement translator that unit C01_stmt ties to parser.py; coq/Lang/Headers.v: servo/LCD flags, library objects and includes as a fold over the top-level device declarations; coq/Lang/FnSelect.v: the selection loop over variants / recorded call signatures / aliases / primary signature and _cpp_type; coq/Lang/EmitScope.v: per IR node kind the blocks it opens and the names it declares, written from the branches of _emit_block, and the scope stack that decides 'declared twice in one scope'; coq/Lang/Globals.v: de-duplication of global lines by text). The models are run against the real functions and against g++ on generated inputs; the C++ type checker is not modelled - g++ itself decides, on every accepted script of a structured generator (devices x helpers x lists x functions x control flow x printable literals) restricted to the guard of the listed findings.",
     "level_note": "Trusted: Coq kernel, extraction, OCaml driver, g++ 12 -std=gnu++17 and the mock Arduino core as the definition of 'compiles', harness/c06_sections.py (reads top-level items, defined and used names out of the emitted text), harness/c06_gen.py (script generator and the syntactic guard shapes_of). Theorems are about the models; what ties the whole transpiler to the property is the compiler oracle, a search, not a proof.",
     "design_ref": "DESIGN.md section 4 C06",
 }
@@ -279,7 +279,7 @@ def part_lexer(ctx, dist):
 
 
 # ------------------------------------------------------------------ C. printable literals end to end
-CONTEXTS = ["write", "var", "list", "arg", "fstr", "concat", "aug"]
+CONTEXTS = ["write", "var", "list", "arg", "fstr", "concat", "aug", "ret", "ternary", "cmp", "lcd"]
 
 
 def literal_script(rng, items):
@@ -287,6 +287,8 @@ def literal_script(rng, items):
     pre, body = [], []
     pre.append("def show(t: str):\n    mon.write(t)")
     pre.append("kx = 7")
+    if any(cx == "lcd" for _, _, cx in items):
+        pre.append("from Reduino.Displays import LCD\npanel = LCD(i2c_addr=0x27)")
     for cid, s, cx in items:
         lit = G.py_literal(rng, s)
         body.append(f'mon.write("@@c06case {cid}")')
@@ -304,11 +306,20 @@ def literal_script(rng, items):
             body += [f"sc{cid} = \"<\"", f"sc{cid} = sc{cid} + {lit}", f"mon.write(sc{cid})"]
         elif cx == "aug":
             body += [f"sa{cid} = \"<\"", f"sa{cid} += {lit}", f"mon.write(sa{cid})"]
+        elif cx == "ret":                  # the literal is the return value of a helper
+            pre.append(f"def give{cid}():\n    return {lit}")
+            body.append(f"mon.write(give{cid}())")
+        elif cx == "ternary":              # an arm of a conditional expression
+            body.append(f"mon.write({lit} if kx > 3 else \"no\")")
+        elif cx == "cmp":                  # compared with a variable holding the same value (a second spelling of the literal)
+            body += [f"sq{cid} = {lit}", f"if sq{cid} == {G.py_literal(rng, s)}:", "    mon.write(\"same\")", "else:", "    mon.write(\"differs\")"]
+        elif cx == "lcd":                  # text argument of a display call (compiled and run; the serial line only marks the case)
+            body += [f"panel.line(0, {lit})", f"panel.message({lit}, bottom={lit})", f"panel.progress(1, kx, label={lit})", f"mon.write({lit})"]
     return HEAD + "\n".join(pre) + "\n" + "\n".join(body) + "\nmon.write(\"##end\")\nwhile True:\n    sleep(1000)\n"
 
 
 def expected_line(s, cx):
-    return {"fstr": "7" + s, "concat": "<" + s, "aug": "<" + s}.get(cx, s)
+    return {"fstr": "7" + s, "concat": "<" + s, "aug": "<" + s, "cmp": "same"}.get(cx, s)
 
 
 def part_literals(ctx, dist, strings):
@@ -418,6 +429,21 @@ def boundary_scripts():
     }
     for k, body in helpers.items():
         out.append((head + body + (tail if "while True" not in body else ""), {"boundary: helper " + k: 1}))
+    # device names bound twice (inside the guard of F-C06-rebound-device-globals: Servo / Buzzer with the same limits): twice before
+    # the loop with the same / with other pins, and once before the loop and once more at the top of the loop body
+    dimp = ("from Reduino import target\ntarget(\"COM3\")\nfrom Reduino.Actuators import Servo, Buzzer, Led, RGBLed, DCMotor\n"
+            "from Reduino.Sensors import Button, Potentiometer, Ultrasonic\nfrom Reduino.Displays import LCD\nfrom Reduino.Utils import sleep\n")
+    first = ['led = Led(13)', 'rgb = RGBLed(9, 10, 11)', 'bz = Buzzer(8)', 'm = DCMotor(4, 5, 6)', 'b = Button(2)', 'p = Potentiometer("A0")',
+             'u = Ultrasonic(3, 7)', 'arm = Servo(44, min_angle=10)', 'lcd = LCD(i2c_addr=0x27)']
+    other = ['led = Led(12)', 'rgb = RGBLed(3, 5, 6)', 'bz = Buzzer(7)', 'm = DCMotor(22, 23, 24)', 'b = Button(25)', 'p = Potentiometer("A1")',
+             'u = Ultrasonic(26, 27)', 'arm = Servo(45, min_angle=10)', 'lcd = LCD(i2c_addr=0x3F)']
+    use = ["led.on()", "rgb.on()", "bz.beep()", "m.invert()", "arm.write(20)", "lcd.clear()", "sleep(100)"]
+    loop = "while True:\n" + "".join("    " + u + "\n" for u in use)
+    out.append((dimp + "\n".join(x for pair in zip(first, first) for x in pair) + "\n" + loop, {"boundary: every device name bound twice, same arguments": 1}))
+    out.append((dimp + "\n".join(x for pair in zip(first, other) for x in pair) + "\n" + loop, {"boundary: every device name bound twice, other pins": 1}))
+    hoist = [x for x in first if x.split(" = ")[1].split("(")[0] in ("Led", "RGBLed", "DCMotor", "Button", "Potentiometer", "Ultrasonic", "Servo")]
+    out.append((dimp + "\n".join(first) + "\nwhile True:\n" + "".join("    " + x + "\n" for x in hoist) + "".join("    " + u + "\n" for u in use),
+                {"boundary: hoistable device names bound before the loop AND at the top of the loop body": 1}))
     return out
 
 
@@ -724,6 +750,7 @@ def part_pairs(ctx, dist, samples):
     srcs = [PR.wrap(cx, [l for _, l in seq]) for cx, seq in runs]
     n_eval = 0
     todo = []
+    reduced = set()
     for (cx, seq), src in zip(runs, srcs):
         sh = G.shapes_of(src)
         if sh:
@@ -746,6 +773,10 @@ def part_pairs(ctx, dist, samples):
         if c["compiled"]:
             continue
         key0 = err_key(c["compile_log"])
+        if key0 in reduced:               # the same error in another kind of block: reported once, reduced once
+            dist["pairs:failing context (same error, not reduced again):" + cx] += 1
+            continue
+        reduced.add(key0)
 
         def fails(cands, cx=cx, key0=key0):
             out = _compile_many([PR.wrap(cx, [l for _, l in cand]) for cand in cands])
@@ -1007,14 +1038,16 @@ def run(ctx: C.Ctx):
         "distinct_nontrivial": nt1 + nt4,
         "rule": "A: escape on special strings + all 1/2-character strings over a 12-symbol boundary alphabet + all 3-character strings over 5 symbols + seeded printable strings (ASCII incl. quote/backslash/?, Unicode) + strings with control characters (model vs _escape_string_literal; the real output lexed by the model lexer; the three escape call sites of _to_c_expr). "
                 "B: C++ literal bodies built from plain characters, simple/octal/hex escapes, trigraph-like sequences, line splices, non-ASCII: model lexer vs the bytes g++ stores. "
-                "C: printable strings in 7 script contexts (write, variable, list element, function argument, f-string, concatenation, +=) transpiled, compiled, run; the printed line must be the Python value. "
-                "D: 6 edge scripts + 28 boundary scripts (every combination and declaration order of Servo / parallel LCD / I2C LCD incl. a Servo hoisted from the loop head and two objects per class; every helper shape: parameter re-bound to float called with int and float in both orders, two real overloads, calls through annotated wrappers, one signature twice, never called, called from a function only) + seeded structured scripts (c06_gen.gen_script: device kinds forced in rotation before the loop / hoistable kinds at the top of the loop body; every 4th script with 1-3 instances per device kind in shuffled order, both LCD interfaces / only one of them in rotation, a hoistable kind both before and in the loop; every 4th script with helpers whose un-annotated parameters are called with several argument types (13 shapes in rotation: re-bound parameters, overloads, recursion, list parameter / result, global statement, empty body) at top level, in the loop, in nested blocks and inside other functions; devices first / alternating with globals / below the functions that drive them; pins as literals or global variables; globals, lists, user functions, if/elif/else, for, while, try, tuple assignment, f-strings, device calls with literal and run-time arguments) filtered by the syntactic guard shapes_of; every accepted one is compiled+linked by g++ (oracle) and its top-level structure is read back and compared with the model's stitch order / declared-before-use verdict; on each of them two more property clauses are evaluated on the real artefacts (every instantiated library class has its own header included above the object; no (name, parameter types) is defined twice - in Program.functions and in the text) and Lang/Headers.v / Lang/FnSelect.v are run on the real device declarations / specialisation tables and compared with the real include list, library objects and Program.functions. "
+                "C: printable strings in 11 script contexts (write, variable, list element, function argument, f-string, concatenation, +=, return value of a helper, arm of a conditional expression, comparison with a second spelling of the literal, text / label arguments of LCD calls) transpiled, compiled, run; the printed line must be the Python value. "
+                "D: 6 edge scripts + 31 boundary scripts (every device name bound twice with the same arguments / with other pins, hoistable kinds bound before the loop and again at its top; every combination and declaration order of Servo / parallel LCD / I2C LCD incl. a Servo hoisted from the loop head and two objects per class; every helper shape: parameter re-bound to float called with int and float in both orders, two real overloads, calls through annotated wrappers, one signature twice, never called, called from a function only) + seeded structured scripts (c06_gen.gen_script: device kinds forced in rotation before the loop / hoistable kinds at the top of the loop body; every 4th script with 1-3 instances per device kind in shuffled order, both LCD interfaces / only one of them in rotation, a hoistable kind both before and in the loop; every 4th script with helpers whose un-annotated parameters are called with several argument types (13 shapes in rotation: re-bound parameters, overloads, recursion, list parameter / result, global statement, empty body) at top level, in the loop, in nested blocks and inside other functions; devices first / alternating with globals / below the functions that drive them; pins as literals or global variables; globals, lists, user functions, if/elif/else, for, while, try, tuple assignment, f-strings, device calls with literal and run-time arguments) filtered by the syntactic guard shapes_of; every accepted one is compiled+linked by g++ (oracle) and its top-level structure is read back and compared with the model's stitch order / declared-before-use verdict; on each of them two more property clauses are evaluated on the real artefacts (every instantiated library class has its own header included above the object; no (name, parameter types) is defined twice - in Program.functions and in the text) and Lang/Headers.v / Lang/FnSelect.v are run on the real device declarations / specialisation tables and compared with the real include list, library objects and Program.functions. "
+                "H: harness/c06_pairs.py - a catalog of ~130 statement shapes (every method of Led, RGBLed, Buzzer, Servo, DCMotor, LCD (parallel with backlight pin and I2C), SerialMonitor, Core, sensors with all-literal and with run-time arguments, optional arguments present / absent; tuple assignments all-new / swap / rotate, list literal / comprehension / append / remove / len / index / setitem, calls, for / while / if / elif / try with names promoted out of them, augmented assignments, in functions the re-assignment of the parameter) put TWICE (second copy shuffled, fresh Python names) into ONE block of each of 13 kinds (setup, loop, function body, if / elif / else arm, for, while, try, except, if inside a function, for inside if, loop body below devices declared at its top): every pair of shapes and every shape with itself share one C++ scope; g++ is the oracle, a failing sequence is reduced by ddmin and the minimal script is the replay (evaluations count the pairs); thorough: 6 more rounds per context with three shuffled copies cut at a random length. "
+                "I: every compiled script of D and H: each function of the real text is read back into blocks / header declarations / declarations (harness/c06_scope.py), the extracted scope stack decides whether a name is declared twice in one scope (oracle, cross-checked with g++'s 'redeclaration' errors in both directions), and the extracted emitter model run on the real IR (node kinds + the attributes that decide the template: literal vs run-time durations, empty pattern, known melody / LCD / button) must reproduce blocks and declared names of setup, loop and every user function exactly (declaration-free blocks pruned on both sides). "
                 "F: statement-fragment programs (harness/progen.py feature sets + 34 scoping boundary templates: all-new / mixed / all-old tuple assignments at every level, names first bound in branches and loops, for variables re-bound after the loop) through the extracted Lang.Transl + Lang.Scope and through the real transpiler + g++: the theorem's conclusion is re-checked on the extracted model, and a target the model finds invisible must make g++ fail with 'not declared'. "
                 "distinct non-trivial = strings that need escaping + distinct (section-kind multiset, helper set) signatures of compiled scripts",
         "samples": samples[:4],
         "timing_s": timing,
         "distribution": {k: v for k, v in sorted(dist.items(), key=lambda kv: str(kv[0]))},
-        "guard": "strings: str.isprintable() (theorem guard: no LF/CR). scripts: c06_gen.shapes_of(script) is empty - no user function that calls measure_distance() or lcd.animate(), no call of a function defined later, no '**', no 'except <Name>', no '+' of two string literals, no C++ keyword / Arduino core name as a Python identifier, no top-level tuple assignment mixing new and old names, no for variable mentioned after its loop, no for over anything but range(...), no un-annotated parameter re-bound to a string-valued expression, no string / float literal passed to an un-annotated parameter outside an assignment or return value, no function above an RGBLed whose on/off/blink/toggle it calls; plus generator invariants: type-correct Python, one type class per variable name, list.append/remove arguments of the element type, a helper with two real overloads has one numeric and one String overload and is called only as the right-hand side of an assignment, a helper whose un-annotated parameter is used as a list is called once in an assignment. Function theorem C06_fn_no_redefinition_partial: all labels in _cpp_type's table. Scoping theorem: setup() has no top-level local declaration (for loop()), targets of augmented assignments not checked",
+        "guard": "strings: str.isprintable() (theorem guard: no LF/CR). scripts: c06_gen.shapes_of(script) is empty - no user function that calls measure_distance() or lcd.animate(), no call of a function defined later, no '**', no 'except <Name>', no '+' of two string literals, no C++ keyword / Arduino core name as a Python identifier, no top-level tuple assignment mixing new and old names, no for variable mentioned after its loop, no for over anything but range(...), no un-annotated parameter re-bound to a string-valued expression, no string / float literal passed to an un-annotated parameter outside an assignment or return value, no function above an RGBLed whose on/off/blink/toggle it calls, no Servo / Buzzer name bound twice with different arguments besides the pin; plus generator invariants: type-correct Python, one type class per variable name, list.append/remove arguments of the element type, a helper with two real overloads has one numeric and one String overload and is called only as the right-hand side of an assignment, a helper whose un-annotated parameter is used as a list is called once in an assignment. Function theorem C06_fn_no_redefinition_partial: all labels in _cpp_type's table. Redeclaration theorem C06_emit_no_redeclaration_partial: the declarations the script itself causes (locals, for variables, catch targets, parameters, button polls) are free of redeclaration (the parser's bookkeeping; checked by g++ and the scope oracle, not proved). Globals theorem: every name always offered with the same initialiser. Scoping theorem: setup() has no top-level local declaration (for loop()), targets of augmented assignments not checked",
         "unmodelled": ["the C++ type checker (template deduction in the list helpers, String overloads, implicit conversions): decided by g++ only",
                        "AVR specifics: <cstring> in the len helper, 16-bit int, PROGMEM; the mock is a hosted g++ 12 with the mock core",
                        "universal character names, GNU escapes, numeric escapes > 255, -trigraphs / -std=c++NN modes (the lexer model answers None)",
@@ -1022,10 +1055,13 @@ def run(ctx: C.Ctx):
                        "Lang/FnSelect.v models the selection loop and _cpp_type, not how _parse_function / _infer_expr_type fill the tables (variants, recorded signatures, aliases are read from the real run); overload resolution at the call sites is g++'s",
                        "scripts rejected by the transpiler (not the property's business); lines silently dropped by the parser (C07)",
                        "which names an item defines/uses is read from the emitted text by harness/c06_sections.py, not by a C++ parser",
+                       "Lang/EmitScope.v models which names each node kind declares in which block, not the statements between them; user names are assumed not to start with __redu_ (rendering of the four name classes is then injective); LCD helper snippets and list helpers are fixed text compiled by g++ only; lambdas inside expressions (list comprehensions) are skipped by the reader",
+                       "Lang/Globals.v is a model of the de-duplication rule only (no correspondence run: the lines emit() offers are not observable without a hook); its tie is the replayed witness and the g++ oracle on the boundary scripts with re-bound device names",
                        "scoping theorem: expression reads, redeclaration within one block, the __tmp_assign_k temporaries, user functions, lists and devices are outside Lang/Transl.v; Transl itself is tied to parser.py by unit C01_stmt (IR equality on generated programs), not re-run here"],
         "trusted_base": C.COMMON_TRUSTED + ["g++ 12 -std=gnu++17 -O0 and mock/ (Arduino.h, Servo.h, LiquidCrystal*.h, Wire.h, mock_core.cpp) as the definition of 'compiles against the Arduino core'",
                                             "harness/c06_sections.py (top-level item splitter, defined/used names), harness/c06_gen.py (generator; shapes_of = executable guard)",
-                                            "harness/impl/c06_impl.py (calls _escape_string_literal, _to_c_expr, parse, emit; exports the emitter's snippet constants, the device declarations of the IR, and - through a wrapper around parser._parse_function that keeps a reference to the ctx dict - the specialisation tables parse() selects from)",
+                                            "harness/c06_scope.py (reads blocks, header declarations and declarations of one function out of the emitted text; cross-checked against g++ on every sketch), harness/c06_pairs.py (statement catalog, block contexts, ddmin)",
+                                            "harness/impl/c06_impl.py (calls _escape_string_literal, _to_c_expr, parse, emit; exports the emitter's snippet constants, the device declarations of the IR, the IR in the node encoding of Lang/EmitScope.v (fail-closed on an unknown node kind), and - through a wrapper around parser._parse_function that keeps a reference to the ctx dict - the specialisation tables parse() selects from)",
                                             "mock/__MockLcdBase.h: the shared base of the two mock LCD classes lives in its own header, so that LiquidCrystal / LiquidCrystal_I2C are visible only when their own header is included"],
     })
     ctx.assumptions += ["source and execution character set UTF-8; g++ in a gnu++ mode (trigraphs off), as the Arduino cores and PlatformIO build",
